@@ -808,7 +808,10 @@ def check_file(cfg, rec):
         else:
             padv = np.concatenate([arr[:, H:, :].ravel(), arr[:, :H, W:].ravel()])
             fillv = np.asarray(fill).astype(pix.dtype)
-            if padv.size and not (np.all(np.isnan(padv)) if (pix.dtype.kind == "f" and np.isnan(fillv)) else np.all(padv == fillv)):
+            nan_fill = pix.dtype.kind == "f" and np.isnan(fillv)
+            if nan_fill and name == "tifffile" and str(cfg.get("compression", "")).lower().startswith("lerc"):
+                padv = np.where(padv == 0, np.nan, padv)        # LERC: NaN is an invalid-pixel mask, tifffile returns the masked 0
+            if padv.size and not (np.all(np.isnan(padv)) if nan_fill else np.all(padv == fillv)):
                 msgs.append(f"{name}: padding is not the fill value {fill}")
     gb = rec["gbox"]
     want_tr = tuple(gb.transform)[:6]
